@@ -5,16 +5,36 @@ import (
 	"verif/harness/world"
 )
 
+type diffEvent struct {
+	Ev  string      `json:"ev"`
+	Dir string      `json:"dir"` // fwd: diff(prev, cur); rev: diff(cur, prev); self: diff(cur, cur)
+	Obs run.DiffObs `json:"obs"`
+}
+
 type evalEvent struct {
 	Ev  string      `json:"ev"`
 	Obs run.EvalObs `json:"obs"`
 }
 
 // runExtraOps is extended per property (exposure, focus, eval, diff, formats, laws).
-func runExtraOps(em *emitter, dir, wdir string, c Case, conc *world.Conc, cseed int64, ops map[string]bool, bin string) {
+func runExtraOps(em *emitter, dir, wdir string, c Case, conc *world.Conc, cseed int64, ops map[string]bool, bin string, gs *groupState) {
 	w := c.World
 	if ops["eval"] {
 		em.emit(evalEvent{Ev: "Eval", Obs: run.EvalAPI(wdir, w, conc, cseed, 40)})
+	}
+	if ops["diff"] {
+		if c.Chain && gs.prevDir != "" {
+			d, _ := run.Diff(gs.prevDir, wdir, w, conc, false, "")
+			em.emit(diffEvent{Ev: "Diff", Dir: "fwd", Obs: d})
+			if c.ID%3 == 0 {
+				r, _ := run.Diff(wdir, gs.prevDir, w, conc, false, "")
+				em.emit(diffEvent{Ev: "Diff", Dir: "rev", Obs: r})
+			}
+		}
+		if c.ID%5 == 0 {
+			s, _ := run.Diff(wdir, wdir, w, conc, false, "")
+			em.emit(diffEvent{Ev: "Diff", Dir: "self", Obs: s})
+		}
 	}
 	onlyPods := len(w.Workloads) > 0
 	for i := range w.Workloads {
